@@ -49,6 +49,10 @@ struct Plan {
     max_drops: usize,
     final_request: bool,
     nonce: usize,
+    /// (request index, how): that rpc() call is abandoned after its bytes reached the server -
+    /// the caller drops the call while the send is still pending (false) or the transport reports a
+    /// write error (true). The message-id it used must not be used again.
+    abandon: Option<(usize, bool)>,
 }
 
 fn gen_plan(ctx: &mut Ctx, drops: bool) -> Plan {
@@ -84,7 +88,11 @@ fn gen_plan(ctx: &mut Ctx, drops: bool) -> Plan {
         reqs.push(Req { op, place, stall });
     }
     let nonce = 100 + ctx.pick(900);
-    Plan { reqs, permute, spurious, join_all, bogus_reply, max_drops, final_request: drops, nonce }
+    let abandon = (!drops && !bogus_reply && n >= 2 && ctx.chance(1, 6)).then(|| (ctx.pick(n - 1), ctx.pick(2) == 1));
+    if let Some((k, _)) = abandon {
+        reqs[k].stall = 0;
+    }
+    Plan { reqs, permute, spurious, join_all, bogus_reply, max_drops, final_request: drops, nonce, abandon }
 }
 
 /// A correct, responsive server: answers every request once, with a reply carrying a unique tag.
@@ -92,6 +100,8 @@ struct Fake {
     plan: Plan,
     /// per received rpc: (wire message-id, tag, op element name)
     seen: Arc<Mutex<Vec<(String, String, String)>>>,
+    /// index of a request that was abandoned before it was written (the plan is indexed by issue order)
+    unsent: Arc<Mutex<Option<usize>>>,
 }
 
 impl Server for Fake {
@@ -108,7 +118,8 @@ impl Server for Fake {
         let mut seen = self.seen.lock().unwrap();
         let k = seen.len();
         let tag = format!("TAG-{k}-{}", self.plan.nonce);
-        let planned = self.plan.reqs.get(k).map(|r| r.op);
+        let plan_k = k + usize::from(self.unsent.lock().unwrap().is_some_and(|u| k >= u));
+        let planned = self.plan.reqs.get(plan_k).map(|r| r.op);
         let body = match (op.as_str(), planned) {
             ("lock", Some(Op::LockOk)) => "<ok/>".to_string(),
             ("lock", _) => format!(
@@ -126,9 +137,21 @@ impl Server for Fake {
 }
 
 type StrFut = Pin<Box<dyn Future<Output = String> + Send>>;
+
+/// Resolves to None (dropping the inner future) the first time the inner future is pending.
+struct GiveUpWhenPending<F>(Pin<Box<F>>);
+impl<F: Future> Future for GiveUpWhenPending<F> {
+    type Output = Option<F::Output>;
+    fn poll(mut self: Pin<&mut Self>, cx: &mut std::task::Context<'_>) -> std::task::Poll<Self::Output> {
+        match self.0.as_mut().poll(cx) {
+            std::task::Poll::Ready(v) => std::task::Poll::Ready(Some(v)),
+            std::task::Poll::Pending => std::task::Poll::Ready(None),
+        }
+    }
+}
 type Results = Arc<Mutex<Vec<(usize, String)>>>;
 
-async fn workload(net: Shared, plan: Plan, results: Results, spawner: Spawner) {
+async fn workload(net: Shared, plan: Plan, results: Results, spawner: Spawner, unsent: Arc<Mutex<Option<usize>>>) {
     let mut session = match Session::verif_new(SimTransport(net.clone())).await {
         Ok(s) => s,
         Err(e) => {
@@ -158,6 +181,37 @@ async fn workload(net: Shared, plan: Plan, results: Results, spawner: Spawner) {
             }
         };
         net.lock().unwrap().send_stalls.push_back(stall);
+        if let Some((ka, with_error)) = plan.abandon {
+            if ka == k {
+                net.lock().unwrap().send_after.push_back(if with_error { usize::MAX } else { 1 });
+                // the call is dropped at its first suspension point (the pending flush)
+                let before = net.lock().unwrap().received.len();
+                let r = GiveUpWhenPending(Box::pin(session.rpc::<Get, _>(|b| b.finish()))).await;
+                if net.lock().unwrap().received.len() == before {
+                    // given up before anything was written (waiting for a lock): the server never sees it
+                    {
+                        // its queue entries were not consumed by any send
+                        let mut n = net.lock().unwrap();
+                        let _ = n.send_stalls.pop_back();
+                        let _ = n.send_after.pop_back();
+                    }
+                    *unsent.lock().unwrap() = Some(k);
+                    results.lock().unwrap().push((k, "ABANDONED-UNSENT".to_string()));
+                    continue;
+                }
+                let how = match r {
+                    None => "ABANDONED: rpc() call dropped while its send was pending".to_string(),
+                    Some(Err(e)) => format!("ABANDONED: rpc() returned {e:?}"),
+                    Some(Ok(f)) => {
+                        drop(f);
+                        "ABANDONED: rpc() completed, reply future dropped".to_string()
+                    }
+                };
+                results.lock().unwrap().push((k, how));
+                continue;
+            }
+            net.lock().unwrap().send_after.push_back(0);
+        }
         let fut: StrFut = match op {
             Op::Get => match session.rpc::<Get, _>(|b| b.finish()).await {
                 Ok(f) => Box::pin(async move { format!("{:?}", f.await) }),
@@ -207,7 +261,8 @@ fn run(ctx: &mut Ctx, drops: bool) -> Verdict {
     let plan = gen_plan(ctx, drops);
     ev!(ctx, "plan {:?}", plan);
     let seen = Arc::new(Mutex::new(Vec::new()));
-    let net = Net::new(Box::new(Fake { plan: plan.clone(), seen: seen.clone() }));
+    let unsent_flag: Arc<Mutex<Option<usize>>> = Arc::default();
+    let net = Net::new(Box::new(Fake { plan: plan.clone(), seen: seen.clone(), unsent: unsent_flag.clone() }));
     net.lock().unwrap().push_held(hello_with(&[CAP_BASE10], "7"));
     let results: Results = Arc::default();
     let cfg = SchedCfg {
@@ -219,7 +274,7 @@ fn run(ctx: &mut Ctx, drops: bool) -> Verdict {
     };
     let mut exec = Exec::new(net.clone(), cfg);
     let spawner = exec.spawner.clone();
-    exec.spawn("main", false, workload(net.clone(), plan.clone(), results.clone(), spawner));
+    exec.spawn("main", false, workload(net.clone(), plan.clone(), results.clone(), spawner, unsent_flag));
     let q = exec.run(ctx);
 
     // ---- oracle over the recorded history
@@ -268,8 +323,25 @@ fn run(ctx: &mut Ctx, drops: bool) -> Verdict {
     if let Some(v) = by_k.get(&usize::MAX) {
         return Verdict::violation("session-establishment-failed", (*v).clone());
     }
-    let mut not_found_excuses = usize::from(plan.bogus_reply);
+    let mut not_found_excuses = usize::from(plan.bogus_reply) + usize::from(plan.abandon.is_some());
+    if plan.abandon.is_some() {
+        ctx.count("fault.rpc_call_abandoned_after_its_bytes_went_out");
+    }
+    // a request abandoned before anything was written never reaches the server: later requests are
+    // one position earlier in the server's list
+    let unsent: Option<usize> = by_k.iter().find(|(_, v)| v.as_str() == "ABANDONED-UNSENT").map(|(k, _)| *k);
+    let seen_full = seen.clone();
+    let seen: Vec<(String, String, String)> = {
+        let mut v = seen_full.clone();
+        if let Some(u) = unsent {
+            v.insert(u.min(v.len()), ("<never sent>".into(), "<no tag: never sent>".into(), String::new()));
+        }
+        v
+    };
     for (k, v) in &by_k {
+        if v.starts_with("ABANDONED") {
+            continue;
+        }
         let Some((_, tag, _)) = seen.get(*k) else {
             return Verdict::violation("result-without-request", format!("request #{k} resolved to {v} but the server never saw it"));
         };
@@ -289,7 +361,8 @@ fn run(ctx: &mut Ctx, drops: bool) -> Verdict {
             Op::LockErr => v.starts_with("Err(RpcError(") && v.contains(tag.as_str()),
         };
         if !ok {
-            if v.contains("RequestNotFound") && v.contains("424242") && not_found_excuses > 0 {
+            let abandoned_id = plan.abandon.and_then(|(ka, _)| seen.get(ka)).map(|s| format!("MessageId({})", s.0));
+            if v.contains("RequestNotFound") && (v.contains("424242") || abandoned_id.is_some_and(|i| v.contains(&i))) && not_found_excuses > 0 {
                 // the caller that happened to read the injected reply with an unknown message-id
                 not_found_excuses -= 1;
                 ctx.note("reader of an unknown-id reply got RequestNotFound instead of its own reply");
@@ -362,7 +435,7 @@ pub static C05: PropSpec = PropSpec {
     run: run_c05,
     rule: "seeded schedules over 1-8 pipelined get/lock requests; each reply future awaited at once, kept and joined, or moved to its own task; replies delivered in order or permuted; send back-pressure; spurious polls. A run is non-trivial when >=2 replies were in flight at a delivery or a reader parked a reply for another waiter; distinct = distinct event-log hash (scheduler actions + messages)",
     components: COMPONENTS,
-    assumptions: &["the server answers every request exactly once (responsive server); one run in eight additionally injects a reply with an unknown message-id"],
+    assumptions: &["the server answers every request exactly once (responsive server); one run in eight additionally injects a reply with an unknown message-id; in one run in six one rpc() call is abandoned after its bytes reached the server (dropped while the flush is pending, or the transport reports a write error): its message-id must never be used again, and the caller that happens to read the reply nobody waits for may get RequestNotFound (noted, not judged)"],
     watchdog_s: 30,
     stuck_is_verdict: false,
     serial: false,
